@@ -18,7 +18,7 @@ class C16(Prop):
     floors = {'quick': (300, 80), 'thorough': (5000, 1500)}
     must_reach = ['offline/ast_visitor:StlDiscreteTimeOfflineAstVisitor.visitPredicate']
     quick_cases = 2000
-    thorough_cases = 300000
+    thorough_cases = 1500000
 
     def gen_dense(self, rng):
         from fractions import Fraction as Fr
